@@ -173,7 +173,7 @@ def run(tier, replay):
     if s["lines"] != len(vectors):
         raise vlib.ToolError("harness consumed %d of %d lines" % (s["lines"], len(vectors)))
     expected_parts = {"sha1", "b64_enc_all_3byte_groups", "b64_dec_all_4symbol_texts", "b64_enc_1_2_bytes", "b64_enc_lengths_0_64",
-                      "b64_dec_texts", "pct_enc_1_2_bytes", "pct_dec_texts", "pct_dec_every_escape", "date_days"}
+                      "b64_dec_texts", "pct_enc_1_2_bytes", "pct_dec_texts", "pct_dec_every_escape", "date_days", "date_concurrent"}
     if set(s["parts"]) != expected_parts:
         raise vlib.ToolError("harness parts %s != %s" % (sorted(s["parts"]), sorted(expected_parts)))
     for name, p in sorted(s["parts"].items()):
